@@ -7,14 +7,14 @@ BASELINE = "cd /repo && cargo nextest run --workspace --no-fail-fast --tool-conf
 CHECKS = {
  "C08": dict(
    category="exploration",
-   technique="exhaustive small-scope enumeration + random edit-script generation against validity predicates and an independent optimal-embedding reference (W*)",
-   text="Every ordered pair of layouts up to 4 (quick) / 5 (thorough) nodes is enumerated completely, plus tens of thousands (quick) / millions (thorough) of random larger pairs derived by edit scripts. Each plan is checked against the statement's predicates (bounds, identical shapes, disjoint destinations, sibling order, zero elsewhere, no-op on identical) and against an independent dynamic-programming reference for the words that must survive. Exhaustive below the bound, sampled above it; absence beyond the bound is not established.",
+   technique="exhaustive small-scope enumeration + random edit-script generation against validity predicates and an independent optimal-embedding reference (W*); thorough tier adds coverage-guided fuzzing (cargo-fuzz/libFuzzer targets whose inputs are judged by the same oracle)",
+   text="Every ordered pair of layouts up to 4 (quick) / 5 (thorough) nodes is enumerated completely, plus tens of thousands (quick) / millions (thorough) of random larger pairs derived by edit scripts. Each plan is checked against the statement's predicates (bounds, identical shapes, disjoint destinations, sibling order, zero elsewhere, no-op on identical) and against an independent dynamic-programming reference for the words that must survive. Exhaustive below the bound, sampled above it; absence beyond the bound is not established. The thorough tier additionally runs libFuzzer campaigns whose inputs are the choice tapes of the edit-script and independent-pair generators.",
    note="Trusted: the harness's own shape equality, address computation and W* reference DP (independent of the repository's nodes_match/path_to_address). The survivor clause is demanded only where the surviving set does not depend on the edit script read into the pair (pure removal, pure addition, distinct leaf shapes).",
    design="2.C08"),
  "C13": dict(
    category="exploration",
-   technique="exhaustive enumeration of short strings + random lexeme/Unicode/corpus-mutation texts against tiling, round-trip and leaf-sequence invariants",
-   text="Every string up to length 5 (quick) / 6 (thorough) over a 24-symbol alphabet chosen to hit every tokenizer special case is enumerated completely; random lexeme sequences (one lexeme per token kind plus fusing and unterminated forms, odd Unicode) and mutated shipped sources extend it to long inputs. For each text the token tiling, the concatenation round-trip, the preparser's exactly-once attachment of trivia and the CST's leaf sequence and widths are checked exactly. Complete below the length bound for that alphabet, sampled above.",
+   technique="exhaustive enumeration of short strings + random lexeme/Unicode/corpus-mutation texts against tiling, round-trip and leaf-sequence invariants; thorough tier adds coverage-guided fuzzing (cargo-fuzz/libFuzzer targets whose inputs are judged by the same oracle)",
+   text="Every string up to length 5 (quick) / 6 (thorough) over a 24-symbol alphabet chosen to hit every tokenizer special case is enumerated completely; random lexeme sequences (one lexeme per token kind plus fusing and unterminated forms, odd Unicode) and mutated shipped sources extend it to long inputs. For each text the token tiling, the concatenation round-trip, the preparser's exactly-once attachment of trivia and the CST's leaf sequence and widths are checked exactly. Complete below the length bound for that alphabet, sampled above. The thorough tier additionally runs a libFuzzer campaign over raw texts (fixed number of runs, starting corpus = the shipped sources) with the same oracle inside the target.",
    note="Trusted: the harness's own walk of the green tree and its definition of 'neighbouring token' (the two non-trivia tokens around a trivia run). One open known finding (header trivia dropped) is tolerated in search and pinned by replay.",
    design="2.C13"),
  "C01": dict(
@@ -25,14 +25,14 @@ CHECKS = {
    design="2.C01"),
  "C04": dict(
    category="exploration",
-   technique="exhaustive token-sequence and nesting enumeration + random/mutated text fuzzing with crash-isolating workers; spans checked against the text",
-   text="Every sequence of up to 3 (quick) / 4 (thorough) tokens over one lexeme per token kind and every nesting construct at every depth up to the stated bound of 64 is enumerated; random soups, longer sequences and mutated shipped sources extend it. Each text runs the language server's and the CLI's entry points on an 8 MiB thread; panics are caught with their site, stack overflows and hangs are recovered from the worker journal, and every diagnostic span is checked against the text.",
+   technique="exhaustive token-sequence and nesting enumeration + random/mutated text fuzzing with crash-isolating workers; spans checked against the text; thorough tier adds coverage-guided fuzzing (cargo-fuzz/libFuzzer targets whose inputs are judged by the same oracle)",
+   text="Every sequence of up to 3 (quick) / 4 (thorough) tokens over one lexeme per token kind and every nesting construct at every depth up to the stated bound of 64 is enumerated; random soups, longer sequences and mutated shipped sources extend it. Each text runs the language server's and the CLI's entry points on an 8 MiB thread; panics are caught with their site, stack overflows and hangs are recovered from the worker journal, and every diagnostic span is checked against the text. The thorough tier additionally runs a libFuzzer campaign (fixed number of runs, 16 processes, starting corpus = the shipped sources) whose inputs are source texts; every saved input is re-judged by the plain worker and enters the same shrinking and known-finding classification.",
    note="Texts without diagnostics are not pushed through code generation here (C03's subject). Termination is a 20 s bound confirmed twice. Two open known findings (placeholder span 0..1, one unreachable!() site) are tolerated by signature and pinned by replay.",
    design="2.C04"),
  "C20": dict(
    category="exploration",
-   technique="round-trip property testing of generated values/types (plus exhaustive small values) against a harness-side model; decoder robustness on mutated bytes",
-   text="Generated Value and Type trees (all variants, edge floats, odd strings, empty aggregates, non-transportable nodes at any depth), all values of depth <= 2 over 8 leaves exhaustively, macro argument lists, and corrupted byte strings are pushed through the FFI encoders/decoders; results are compared with a harness-side model of the value, refusals are demanded where the property demands them.",
+   technique="round-trip property testing of generated values/types (plus exhaustive small values) against a harness-side model; decoder robustness on mutated bytes; thorough tier adds coverage-guided fuzzing (cargo-fuzz/libFuzzer targets whose inputs are judged by the same oracle)",
+   text="Generated Value and Type trees (all variants, edge floats, odd strings, empty aggregates, non-transportable nodes at any depth), all values of depth <= 2 over 8 leaves exhaustively, macro argument lists, and corrupted byte strings are pushed through the FFI encoders/decoders; results are compared with a harness-side model of the value, refusals are demanded where the property demands them. The thorough tier additionally runs libFuzzer campaigns over wire bytes (decoders must refuse or round-trip) and over the choice tapes of the value and argument-list generators.",
    note="The Type serde impls are exercised through serde_json with positional transcoding rather than bincode (variant indices are not observed on that leg); TypeNodeId/Value go through the real bincode path. One open known finding (ErrorV decodes to Unit).",
    design="2.C20"),
  "C03": dict(
@@ -49,8 +49,8 @@ CHECKS = {
    design="2.C05"),
  "C14": dict(
    category="exploration",
-   technique="round-trip / idempotence property testing of the formatter over shipped sources, layout-comment mutants and synthetic programs, with AST fingerprint and comment-sequence oracles",
-   text="Every valid shipped source at 8 widths x 4 indents (exhaustive), thousands of layout/comment mutants and synthetic programs are formatted; the output must parse, have the same structural AST fingerprint, the same comment sequence, and be a fixed point. Seventeen formatter defects found this way are recorded; cases attributed to them by a token-level repair are discarded and counted, anything else is a violation.",
+   technique="round-trip / idempotence property testing of the formatter over shipped sources, layout-comment mutants and synthetic programs, with AST fingerprint and comment-sequence oracles; thorough tier adds coverage-guided fuzzing (cargo-fuzz/libFuzzer targets whose inputs are judged by the same oracle)",
+   text="Every valid shipped source at 8 widths x 4 indents (exhaustive), thousands of layout/comment mutants and synthetic programs are formatted; the output must parse, have the same structural AST fingerprint, the same comment sequence, and be a fixed point. Seventeen formatter defects found this way are recorded; cases attributed to them by a token-level repair are discarded and counted, anything else is a violation. The thorough tier additionally runs a libFuzzer campaign over raw texts (first byte = width/indent), judged by the same oracle (texts that do not parse are discarded).",
    note="AST equality is a harness-side structural fingerprint of the lowered Program (spans ignored). Idempotence cannot be judged behind a structural defect (the first output does not parse).",
    design="2.C14"),
  "C02": dict(
@@ -115,14 +115,14 @@ CHECKS = {
    design="2.C18"),
  "C17": dict(
    category="exploration",
-   technique="model-based testing of generated inline module trees and reference routes against a harness-side resolution model; exhaustive enumeration of single-route programs",
-   text="Inline module trees with random pub/private members (each function returns a distinct constant), use / multi / wildcard / pub-use chains and shadowing locals are generated together with reference sites at top level, inside modules and inside lambdas; a harness resolution model computes the unique target or 'must be rejected'. Positive programs must compile and return the model's constants, negative programs (exactly one illegal reference) must be rejected. Every well-formed single-reference program over a fixed 2-level tree (2328) is enumerated exhaustively.",
+   technique="model-based testing of generated inline module trees and reference routes against a harness-side resolution model; exhaustive enumeration of single-route programs; thorough tier adds coverage-guided fuzzing (cargo-fuzz/libFuzzer targets whose inputs are judged by the same oracle)",
+   text="Inline module trees with random pub/private members (each function returns a distinct constant), use / multi / wildcard / pub-use chains and shadowing locals are generated together with reference sites at top level, inside modules and inside lambdas; a harness resolution model computes the unique target or 'must be rejected'. Positive programs must compile and return the model's constants, negative programs (exactly one illegal reference) must be rejected. Every well-formed single-reference program over a fixed 2-level tree (2328) is enumerated exhaustively. The thorough tier additionally runs libFuzzer campaigns whose inputs are the choice tapes of the positive and negative module-tree generators.",
    note="The resolution model is the trusted base (its rules for nested modules follow the module_* fixtures). Four open findings (module visibility ignored, re-export leak, file-global alias and wildcard tables) are excluded by construction or tolerated narrowly and pinned by replays.",
    design="2.C17"),
  "C19": dict(
    category="exploration",
-   technique="schedule generation: K compile+run jobs under a harness-owned interleaving (cooperative scheduler on a scheduling-point hook in front of every session-globals access; the plan is drawn from the tape, replayed and shrunk), plus free-running concurrency stress on K OS threads; each job compared with its solo result in a fresh process",
-   text="Sets of 2-6 jobs (generated programs, shipped sources including macro programs that touch the process environment, sum-type programs with multi-constructor diagnostics, duplicates, near-duplicates, identifier shuffles and broken texts) are first run alone, each in a fresh process. Space `sched`: the jobs run on K threads of a fresh process of which exactly one runs at a time; hook H3 calls the harness at every session-globals access (about 14 000 per job) and the turn changes where the case's plan (4-50 (segment length, thread) pairs in five styles from single-access alternation to long runs, cyclic) says. Space `stress`: the jobs are started together behind a barrier on K OS threads, twice. Every job's artefacts (bytecode listing, WASM bytes, layouts, outputs, diagnostic messages) must equal its solo artefacts and no job may panic only when run concurrently.",
+   technique="schedule generation: K compile+run jobs under a harness-owned interleaving (cooperative scheduler on a scheduling-point hook in front of every session-globals access; the plan is drawn from the tape, replayed and shrunk), plus free-running concurrency stress on K OS threads; each job compared with its solo result in a fresh process; memcheck-instrumented runs of planned interleavings (valgrind) as a memory-safety oracle",
+   text="Sets of 2-6 jobs (generated programs, shipped sources including macro programs that touch the process environment, sum-type programs with multi-constructor diagnostics, duplicates, near-duplicates, identifier shuffles and broken texts) are first run alone, each in a fresh process. Space `sched`: the jobs run on K threads of a fresh process of which exactly one runs at a time; hook H3 calls the harness at every session-globals access (about 14 000 per job) and the turn changes where the case's plan (4-50 (segment length, thread) pairs in five styles from single-access alternation to long runs, cyclic) says. Space `stress`: the jobs are started together behind a barrier on K OS threads, twice. Every job's artefacts (bytecode listing, WASM bytes, layouts, outputs, diagnostic messages) must equal its solo artefacts and no job may panic only when run concurrently. A third space repeats planned interleavings of symbol-heavy jobs with the whole process under valgrind/memcheck: an invalid read, write or free that no job shows alone is a failure.",
    note="Owned interleavings exist only at the granularity of session-globals accesses; code between two accesses runs atomically under a plan, and the free-running space sees whatever the OS produces, so absence of a race is not established. A difference under a plan is reported when the same plan shows it twice (stress: 3 sightings); otherwise it is counted. A run of the jobs together that does not finish within 40x the time they took one after the other (at least 45 s), twice, is reported as a hang (deadlock or livelock).",
    design="2.C19"),
 }
@@ -160,7 +160,7 @@ def main():
             "source_commits": hooks_commits,
             "add_only": True,
         },
-        "engines": [{"name": "mmv", "path": "/verif/harness", "serves_properties": sorted(CHECKS), "kind_free_text": "own choice-tape property-testing engine (random structured generation, small-scope exhaustive enumeration, tape shrinking, crash-isolating worker processes) driven by /verif/check; cargo-fuzz targets share the same decoders"}],
+        "engines": [{"name": "mmv", "path": "/verif/harness", "serves_properties": sorted(CHECKS), "kind_free_text": "own choice-tape property-testing engine (random structured generation, small-scope exhaustive enumeration, tape shrinking, crash-isolating worker processes) driven by /verif/check; cargo-fuzz/libFuzzer targets (harness/fuzz, thorough tier of C04 C08 C13 C14 C17 C20) read their input as source text, wire bytes or the choice tape of the same generators and run the same oracles"}],
         "checks": checks,
         "not_applicable": na,
         "notes": "All checks: exit 0 = held (KNOWN-FINDING lines possible), 1 = VIOLATION line with replay path, 2 = infrastructure trouble/inconclusive. VERIF_SEED selects the tape stream; VERIF_TIER is honoured. known_findings.json lists open and fixed findings; it is never written at run time.",
